@@ -219,6 +219,12 @@ def effect_stage(res):
     for rr in matrix:
         j, run0 = rr["job"], rr["run"]
         if run0.get("error"):
+            # the designed loop templates are well-formed and their data is plain: generated path code that throws there
+            # (e.g. spreading a null item path) is a failure to deliver the path
+            if any(str(f).startswith("matrix-loop-template") for f in j.get("features", [])) and "list too long" not in run0["error"]:
+                bad += 1
+                res.violation("the generated code of a loop template with two-way bindings throws: %s" % run0["error"][:200],
+                              {"src": j["src"], "datas": j["datas"], "error": run0["error"]})
             continue
         for k, t in enumerate(run0["trees"]):
             if bad < 6:
